@@ -115,8 +115,19 @@ for di in range(ndumps):
         pages = [{"title": f"{tl}:B{i}", "ns": TEMPLATE_NS, "redirect": None, "model": "wikitext", "body": b}
                  for i, b in enumerate(BODIES)]
         pages += [{"title": f"B{i}", "ns": 0, "redirect": None, "model": "wikitext", "body": b} for i, b in enumerate(BODIES)]
+        # the same title twice with a different kind of entry: the later entry replaces the earlier one completely
+        pages += [{"title": "Dup", "ns": 0, "redirect": None, "model": "wikitext", "body": "first text"},
+                  {"title": "Dup", "ns": 0, "redirect": "Foo", "model": "wikitext", "body": ""},
+                  {"title": "Dup2", "ns": 0, "redirect": "Foo", "model": "wikitext", "body": ""},
+                  {"title": "Dup2", "ns": 0, "redirect": None, "model": "wikitext", "body": "second text"},
+                  {"title": f"{tl}:Dup3", "ns": TEMPLATE_NS, "redirect": None, "model": "wikitext", "body": "t<noinclude>d</noinclude>"},
+                  {"title": f"{tl}:Dup3", "ns": TEMPLATE_NS, "redirect": f"{tl}:B0", "model": "wikitext", "body": ""}]
     if rng.random() < 0.3:
         pages.append(dict(rng.choice(pages), body="second version"))       # duplicate title
+    if rng.random() < 0.3:
+        d = dict(rng.choice(pages))                                        # duplicate title, other kind of entry
+        d["redirect"], d["body"] = (None, "now a page") if d["redirect"] is not None else ("Foo", "")
+        pages.append(d)
     if rng.random() < 0.3:
         tl = NS[TEMPLATE_NS]
         pages.append({"title": f"{tl}:!", "ns": TEMPLATE_NS, "redirect": None, "model": "wikitext", "body": "custom bang"})
